@@ -315,6 +315,9 @@ shared_ptr<IDataArray> BlockHDF5::createDataArray(const std::string &name,
     if (shape.size() == 0) {
         throw InvalidRank("Cannot create a DataArray of rank 0");
     }
+    if (shape.size() > H5S_MAX_RANK) {
+        throw InvalidRank("Cannot create a DataArray of a rank above the maximum HDF5 supports");
+    }
     string id = util::createId();
     boost::optional<H5Group> g = data_array_group(true);
 
